@@ -26,6 +26,7 @@ import os
 import subprocess
 import sys
 import tempfile
+import time
 
 import numpy as np
 
@@ -279,18 +280,25 @@ class Runner:
         self.G = G
 
     # ---------------------------------------------------------------- building
-    def build_case(self, case, n_steps):
+    def build_case(self, case, n_steps, forced=()):
         """Generate steps against the model pool and execute them eagerly in lock-step.
         Returns the list of real maps (None for steps the library refused)."""
         ctx, G = self.ctx, self.G
         jnp = G["jnp"]
         reals = []
         attempts = 0
+        forced = list(forced)
+        last_switch = None
         while len(case.steps) < n_steps and attempts < n_steps * 3:
             attempts += 1
             nd0 = len(case.dyn)
             fresh = len(case.models) < 2 or case.rng.random() < 0.28
-            step = T.gen_fresh(case) if fresh else T.gen_combine(case)
+            if len(case.models) >= 2 and forced:
+                f = forced.pop(0)
+                src = last_switch if f.endswith("@switch") else None
+                step = T.gen_combine(case, force=(f.split("@")[0], src))
+            else:
+                step = T.gen_fresh(case) if fresh else T.gen_combine(case)
             deps = T.step_deps(step)
             if any(reals[d] is None for d in deps):
                 del case.dyn[nd0:]
@@ -312,6 +320,8 @@ class Runner:
             reals.append(real)
             if real is not None:
                 ctx.count(f"built_{step['op']}")
+                if step["op"] == "switch" and not step["concrete"]:
+                    last_switch = len(reals) - 1
         return reals
 
     def _dyn_real(self, case):
@@ -460,6 +470,7 @@ class Runner:
         tainted = any(isinstance(l, M.Leaf) and "vecor" in l.taint for _p, l, _s in M.leaves(model))
         for path, exp in self.queries_for(case, k, uni, budget=90):
             present = isinstance(exp, M.Leaf) and exp.flag.any()
+            got_item = "?"
             for form in self.forms_for(path, rng, full=True):
                 try:
                     raw = self.ask(root, path, form, rng)
@@ -476,7 +487,12 @@ class Runner:
                         bad = ("missing", f"`in` is {raw!r} where the model holds a valid entry")
                     elif raw not in (True, False):
                         bad = ("malformed", f"`in` returned {raw!r}")
+                    elif got_item != "?" and raw != (got_item is not None):
+                        # documented: `addr in chm` <=> chm[addr] does not raise
+                        bad = ("contains-vs-getitem", f"`in` is {raw!r} but chm[addr] {'returned a value' if got_item is not None else 'raised ChoiceMapNoValueAtAddress'}")
                 else:
+                    if form in ("getitem", "slice"):
+                        got_item = raw
                     bad = _judge(exp, _norm(G, raw))
                 if bad is not None:
                     self._report(case, k, path, form, exp, bad, "eager")
@@ -714,13 +730,16 @@ def run_cases(ctx, n_cases, n_jit, budget_s):
     runner = Runner(ctx, G)
     jit_left = n_jit
     for ci in ctx.my_share(n_cases * ctx.nshards):
-        if ctx.elapsed() > budget_s:
-            ctx.note(f"time budget reached after case index {ci}")
+        if time.process_time() > budget_s:
+            ctx.note(f"cpu budget reached after case index {ci}")
             break
         rng = ctx.child_rng(1, ci)
-        case = T.Case(rng)
+        # one leading dimension per shard: eager jax compiles once per distinct shape
+        case = T.Case(rng, N=(2, 3, 4)[ctx.shard % 3])
         n_steps = int(rng.integers(4, 9))
-        reals = runner.build_case(case, n_steps)
+        # the first case of every shard is steered through the rarer mechanisms
+        forced = ("switch:arr", "filter@switch", "mask@switch", "at_update", "or") if ci == ctx.shard else ()
+        reals = runner.build_case(case, max(n_steps, 7) if forced else n_steps, forced)
         uni = runner.universe(case)
         good = []
         for k, real in enumerate(reals):
@@ -749,7 +768,7 @@ def run_cases(ctx, n_cases, n_jit, budget_s):
                 ctx.count("maps_nontrivial")
             if not meta["bad"]:
                 good.append(k)
-        if jit_left > 0 and good and ctx.elapsed() < budget_s * 0.9:
+        if jit_left > 0 and good and time.process_time() < budget_s * 0.9:
             jit_left -= 1
             n = runner.observe_jit(case, reals, good, uni, rng)
             if n:
@@ -801,5 +820,5 @@ def run(ctx):
             ctx.count(f"hashseed_{hs}_shards")
         return
     ctx.count(f"hashseed_{os.environ.get('PYTHONHASHSEED', '?')}_shards_inprocess")
-    G = run_cases(ctx, n_cases=ctx.pick(22, 420), n_jit=ctx.pick(3, 40), budget_s=ctx.pick(70, 780))
+    G = run_cases(ctx, n_cases=ctx.pick(14, 400), n_jit=ctx.pick(2, 40), budget_s=ctx.pick(55, 800))
     dup_address_monitor(ctx, G, ctx.pick(2, 12))
